@@ -51,6 +51,7 @@ type Subj struct {
 	Index  int                                // SCall: result index (-1: the single result)
 	Pick   func(fn *ssa.Function) []ssa.Value // SValue
 	NoReps bool                               // use only Extra as representatives
+	NonNeg bool                               // the subject is a length: no negative representatives
 }
 
 type DomainSpec struct {
@@ -468,6 +469,11 @@ func CheckDomain(p *Prog, r *Report, spec DomainSpec) DomainResult {
 						all = append(all, o)
 					}
 					for _, i := range intReps(s.Type, all, sizes) {
+						if s.NonNeg && (i.Sign() < 0 || i.BitLen() > 47) {
+							// a length: never negative, and no object in a 48-bit
+							// address space has more than 2^47 elements
+							continue
+						}
 						reps[si] = append(reps[si], valOfType(s.Type, i))
 					}
 				default:
